@@ -4,9 +4,9 @@ package main
 
 import (
 	"fmt"
-	"os"
 	"go/token"
 	"go/types"
+	"os"
 	"sort"
 	"strings"
 
@@ -383,9 +383,9 @@ func runC10(e *Engine, tier Tier) *PropRun {
 			return o.Kind == "own" || o.Kind == "rg"
 		},
 		Explanation: fmt.Sprintf("(1) Ownership discipline: one obligation own:<var> for each of the %d package-level variables of the library packages (enumerated from go/ssa): it is a sync/atomic object (%d), or immutable after initialisation - no store, map update, element store or append outside init, followed through loads, field and index addressing (%d) -, or every access is dominated by a Lock/RLock (%d); anything else fails with the offending sites. (2) Exact metrics under interference: rely/guarantee obligations rg:<cell> at every sync/atomic Store/Add/Swap/CompareAndSwap of a cell with an rg specification in pkg/metrics/contracts_verif.go: the update must satisfy the cell's guarantee for every value the cell may hold at that instant, i.e. every value rely-reachable from what this thread last loaded (for a successful CompareAndSwap: exactly the expected value).", nvars, nSync, nImm, nGuard),
-		NotCovered: []string{"the Go memory model / all schedules (a sequential VC generator cannot quantify over them; the race detector is a different family)", "objects the caller shares between goroutines against the documented contract", "returns-what-it-returns-alone is the consequence of C08 + C09 + ownership, argued not proved", "lock/unlock pairing beyond dominance by an acquisition", "cmd/ packages", "metrics.Reset (re-initialises the cells; the totals are exact between two resets)"},
+		NotCovered:  []string{"the Go memory model / all schedules (a sequential VC generator cannot quantify over them; the race detector is a different family)", "objects the caller shares between goroutines against the documented contract", "returns-what-it-returns-alone is the consequence of C08 + C09 + ownership, argued not proved", "lock/unlock pairing beyond dominance by an acquisition", "cmd/ packages", "metrics.Reset (re-initialises the cells; the totals are exact between two resets)"},
 		Assumptions: []string{"sync.Pool, sync.Mutex, sync/atomic behave as documented", "a value loaded from an immutable table is not written through an alias obtained elsewhere"},
-		Level: "other",
-		Extra: map[string]any{"package_level_variables": nvars, "sync_objects": nSync, "immutable": nImm, "lock_guarded": nGuard},
+		Level:       "other",
+		Extra:       map[string]any{"package_level_variables": nvars, "sync_objects": nSync, "immutable": nImm, "lock_guarded": nGuard},
 	}
 }
